@@ -25,7 +25,8 @@ class C01(core.Check):
         "count+end, two-section multigrading, all preserve modes, single-cell counts; special modes: sandwich (also conflicting), "
         "edge-only conflict, pair conflict with leaning neighbours, fully chopped; histories: second write (with vertex moves), chops "
         "placed on the assembled mesh (Block.chop) then a third write, a typo in a multi-section chop corrected in place after the "
-        "refused write, one block entered with corner noise below the merging tolerance. Non-trivial = at least two blocks share an "
+        "refused write, one block entered with corner noise below the merging tolerance, operations excluded with mesh.delete, "
+        "faces or whole lattice planes declared as merged patch pairs (slave corners get vertices of their own). Non-trivial = at least two blocks share an "
         "edge; distinct = different assembly/chops."
     )
     assumptions = [
